@@ -162,8 +162,12 @@ def globals_stages(q):
 
 
 def conc_stage(mode, k, num, iters, stress, seedoff=0):
-    return {'kind': 'gen', 'name': 'conc-' + mode, 'module': 'MC_Conc', 'consts': {'Mode': '"%s"' % mode, 'K': k, 'Iter': iters, 'Stress': stress},
-            'simulate': num, 'depth': 64, 'trace': 'Trace_Lin', 'race': True, 'min_per_shard': 2, 'max_shards': 8, 'seedoff': seedoff, 'limit': num * 6}
+    st = {'kind': 'gen', 'name': 'conc-' + mode, 'module': 'MC_Conc', 'consts': {'Mode': '"%s"' % mode, 'K': k, 'Iter': iters, 'Stress': stress},
+          'simulate': num, 'depth': 64, 'trace': 'Trace_Lin', 'race': True, 'min_per_shard': 2, 'max_shards': 8, 'seedoff': seedoff, 'limit': num * 6 if num else None}
+    if not num:        # exhaustive: every program of the mode (TLC BFS), each in a process of its own
+        del st['simulate'], st['depth']
+        st['max_shards'] = 16
+    return st
 
 
 def plan(prop, tier):
@@ -174,7 +178,7 @@ def plan(prop, tier):
         return {'stages': lock_stages(q) + disc + [conc_stage('c06', 4, 6 if q else 60, 3, 20 if q else 60)], 'rule': RULE_CONC, 'assumptions': ASSUME_CONC}
     if prop == 'C07':
         return {'stages': globals_stages(q) + group_stages(2, 'C13', 0.1 if q else 0.5)[2:] + [conc_stage('c07inst', 4, 2 if q else 30, 2, 15 if q else 40), conc_stage('c07quiet', 6, 2 if q else 30, 3, 15 if q else 40, 1),
-                                               conc_stage('c07seq', 8, 6 if q else 80, 1, 0, 2), conc_stage('c07group', 6, 2 if q else 30, 3, 15 if q else 40, 3)], 'rule': RULE_CONC, 'assumptions': ASSUME_CONC}
+                                               conc_stage('c07seq', 8, 6 if q else 80, 1, 0, 2), conc_stage('c07fresh', 2 if q else 3, None, 1, 0), conc_stage('c07group', 6, 2 if q else 30, 3, 15 if q else 40, 3)], 'rule': RULE_CONC, 'assumptions': ASSUME_CONC}
     if prop == 'C20':
         return {'stages': params_stages(2, 1.0) + params_stages(3, 0.1 if q else 0.6)[1:]
                 + [dict(gogen('bytes', 300 if q else 5000, fam='params', trace='Trace_Params'), replay_prefix=True, min_per_shard=20)],
@@ -239,8 +243,8 @@ def p_c02(q):
 def p_c03(q):
     if q:
         return [mc_router('T'), mc_tree(4), gen_bfs('B', 2, sample=0.12, dump=True), gen_bfs('C', 2, sample=0.4, dump=True), gen_bfs('X', 2, sample=0.05), gen_bfs('R', 5, sample=0.3), gen_bfs('A', 2, sample=0.15),
-                gen_bfs('Y', 3, link=True), gen_bfs('FC', 3, module='MC_RouterF'), gen_sim('B', 8, 10), gogen('mixed', 40)]
-    return [mc_router('T'), mc_router('M', 'routerM'), mc_tree(6), REPOTESTS, gen_bfs('A', 2, dump=True), gen_bfs('B', 2, dump=True), gen_bfs('C', 2, dump=True), gen_bfs('X', 2, sample=0.3), gen_bfs('R', 6), gen_bfs('Y', 3, link=True), gen_bfs('FC', 3, module='MC_RouterF'),
+                gen_bfs('Y', 3, link=True), gen_bfs('FC', 3, module='MC_RouterF'), gen_bfs('K', 3), gen_sim('B', 8, 10), gogen('mixed', 40)]
+    return [mc_router('T'), mc_router('M', 'routerM'), mc_tree(6), REPOTESTS, gen_bfs('A', 2, dump=True), gen_bfs('B', 2, dump=True), gen_bfs('C', 2, dump=True), gen_bfs('X', 2, sample=0.3), gen_bfs('R', 6), gen_bfs('Y', 3, link=True), gen_bfs('FC', 3, module='MC_RouterF'), gen_bfs('K', 4),
             gen_sim('A', 14, 60), gen_sim('B', 14, 60, seedoff=1), gen_sim('C', 14, 40, seedoff=2), gogen('mixed', 1500)]
 
 
@@ -281,9 +285,9 @@ def subF(st):
 def p_c19(q):
     F = dict(module='MC_RouterF', extra='MirrorExtra', urls='UrlSetF', rt=True)
     if q:
-        return [mc_router('T'), subF(gen_bfs('F', 2, sample=0.25, **F)), gen_bfs('FC', 3, module='MC_RouterF', extra='MirrorExtra'), gen_bfs('V', 2, module='MC_RouterF', extra='MirrorExtra', sample=0.5), gen_bfs('B', 1, module='MC_RouterF', extra='MirrorExtra'),
+        return [mc_router('T'), subF(gen_bfs('F', 2, sample=0.25, **F)), gen_bfs('FC', 3, module='MC_RouterF', extra='MirrorExtra'), gen_bfs('V', 2, module='MC_RouterF', extra='MirrorExtra', sample=0.5), gen_bfs('B', 1, module='MC_RouterF', extra='MirrorExtra'), gen_bfs('K', 3, module='MC_RouterF', extra='MirrorExtra'),
                 subF(gen_sim('F', 8, 8, module='MC_RouterF', extra='MirrorExtra'))]
-    return [mc_router('T'), subF(gen_bfs('F', 2, **F)), gen_bfs('FC', 3, module='MC_RouterF', extra='MirrorExtra'), gen_bfs('V', 2, module='MC_RouterF', extra='MirrorExtra'), gen_bfs('B', 2, module='MC_RouterF', extra='MirrorExtra', sample=0.3), subF(gen_sim('F', 4, 300, name='simF4', seedoff=5, **{k: v for k, v in F.items() if k in ('module', 'extra')})),
+    return [mc_router('T'), subF(gen_bfs('F', 2, **F)), gen_bfs('FC', 3, module='MC_RouterF', extra='MirrorExtra'), gen_bfs('V', 2, module='MC_RouterF', extra='MirrorExtra'), gen_bfs('B', 2, module='MC_RouterF', extra='MirrorExtra', sample=0.3), gen_bfs('K', 3, module='MC_RouterF', extra='MirrorExtra'), subF(gen_sim('F', 4, 300, name='simF4', seedoff=5, **{k: v for k, v in F.items() if k in ('module', 'extra')})),
             subF(gen_sim('F', 14, 60, module='MC_RouterF', extra='MirrorExtra'))]
 
 
